@@ -126,14 +126,22 @@ class C03(Check):
     prop_module = "PoxModel.Properties.C03"
     lean_targets = ["drv_c03"]
     driver = "drv_c03"
-    theorems = ["Pox.C03.table_sorted", "Pox.C03.add_entry_total", "Pox.C03.exact_outranks", "Pox.C03.lookup_spec", "Pox.C03.miss_iff",
-                "Pox.C03.extract_ok", "Pox.C03.matches_iff", "Pox.C03.lookup_spec_wire", "Pox.C03.miss_iff_wire", "Pox.C03.flow_from_packet_matches",
-                "Pox.C03.flow_from_packet_hit", "Pox.C03.spec_frags_irrelevant", "Pox.C03.flow_from_packet_exact_iff",
-                "Pox.C03.flow_from_packet_exact", "Pox.C03.history_sorted", "Pox.C03.step_preserves_sorted", "Pox.C03.add_position",
+    # the code as it stands (Variant.repaired = /repo HEAD) first; then the statements for every variant / history; last the reverted tree
+    # (Variant.head: regression witnesses).  `lookup_stateless` is definitional (restates the model) and deliberately not listed.
+    theorems = ["Pox.C03.matches_iff_repaired", "Pox.C03.extract_ok_repaired", "Pox.C03.lookup_spec_wire_repaired",
+                "Pox.C03.lookup_spec_wire_literal_repaired", "Pox.C03.miss_iff_wire_repaired", "Pox.C03.history_lookup_wire_repaired",
+                "Pox.C03.history_lookup_sequence_wire", "Pox.C03.exact_outranks_repaired", "Pox.C03.exact_iff_repaired",
+                "Pox.C03.table_sorted_repaired", "Pox.C03.subsumes_iff_repaired", "Pox.C03.flow_from_packet_matches_repaired",
+                "Pox.C03.flow_from_packet_exact_repaired", "Pox.C03.flowOk_repaired",
+                "Pox.C03.history_sorted", "Pox.C03.step_preserves_sorted", "Pox.C03.add_entry_total_by", "Pox.C03.add_position",
                 "Pox.C03.removal_sublist", "Pox.C03.history_exact_first", "Pox.C03.history_lookup", "Pox.C03.history_lookup_wire",
-                "Pox.C03.history_lookup_wire_repaired", "Pox.C03.lookup_stateless", "Pox.C03.history_lookup_sequence_wire", "Pox.C03.matches_iff_v", "Pox.C03.extract_ok_v", "Pox.C03.exact_iff_v",
-                "Pox.C03.subsumes_iff_v", "Pox.C03.flow_from_packet_matches_v", "Pox.C03.subsumes_iff_forall", "Pox.C03.subsumes_iff",
-                "Pox.C03.matches_tos_defect", "Pox.C03.matches_prereq_defect", "Pox.C03.extract_arp_defect", "Pox.C03.flow_from_packet_exact_defect",
+                "Pox.C03.matches_iff_v", "Pox.C03.extract_ok_v", "Pox.C03.exact_iff_v", "Pox.C03.subsumes_iff_v",
+                "Pox.C03.flow_from_packet_matches_v", "Pox.C03.spec_frags_irrelevant", "Pox.C03.subsumes_iff_forall", "Pox.C03.matches_tos_defect",
+                "Pox.C03.irregular_l4_witness", "Pox.C03.irregular_l3_witness",
+                "Pox.C03.table_sorted", "Pox.C03.add_entry_total", "Pox.C03.exact_outranks", "Pox.C03.lookup_spec", "Pox.C03.miss_iff",
+                "Pox.C03.extract_ok", "Pox.C03.matches_iff", "Pox.C03.lookup_spec_wire", "Pox.C03.miss_iff_wire", "Pox.C03.flow_from_packet_matches",
+                "Pox.C03.flow_from_packet_hit", "Pox.C03.flow_from_packet_exact_iff", "Pox.C03.flow_from_packet_exact", "Pox.C03.subsumes_iff",
+                "Pox.C03.matches_prereq_defect", "Pox.C03.extract_arp_defect", "Pox.C03.flow_from_packet_exact_defect",
                 "Pox.C03.exact_outranks_defect"]
     anchors = ()          # computed in setup() from the source: the bodies of ANCHORED (line numbers move with every fix commit)
     ANCHORED = {"pox/openflow/libopenflow_01.py": {"ofp_match": ["from_packet", "get_nw_dst", "get_nw_src", "_normalize_wildcards", "_unwire_wildcards",
@@ -159,13 +167,18 @@ class C03(Check):
     technique = ("Lean 4 proof (bit-level lemmas on the wildcard word, case analysis over the match prerequisites, loop invariant of the insert binary search, "
                  "invariant-by-induction over histories of table operations, input normalisation to transfer theorems between code variants) + differential correspondence "
                  "of the compiled model against the real match/table code + spec oracle")
-    level_text = ("Theorems: every history of add_entry / remove_entry / remove_matching_entries / remove_expired_entries keeps the table sorted by descending effective priority "
-                  "with exact entries first, and entry_for_packet returns the highest-priority accepted entry / misses iff nothing is accepted (history_sorted, history_exact_first, "
-                  "history_lookup; lookup_stateless: a lookup is a function of (table, frame), whatever was looked up before; add_position pins the insertion position among equal priorities); against the standard: code-match = standard-match on the extracted 12-tuple "
-                  "(matches_iff), extraction = Figure 4 (extract_ok), lookup after any history = best matching flow currently installed (history_lookup_wire), "
-                  "matches_with_wildcards(consider_other_wildcards=True) = subsumption over all header tuples (subsumes_iff), a flow built by from_packet/pack matches its packet and is "
-                  "exact iff the packet is IPv4 TCP/UDP/ICMP (flow_from_packet_matches, flow_from_packet_exact_iff). The `_v` theorems state the same for every combination of the three "
-                  "proposed repairs, with exactly the hypotheses each repair removes.")
+    level_text = ("Theorems for the code as it stands (Variant.repaired = /repo HEAD, the variant established on every run by probing the witness inputs): code-match = "
+                  "standard-match on the extracted 12-tuple for every transmitted match and every complete frame (matches_iff_repaired), extraction = Figure 4 (extract_ok_repaired), "
+                  "after every history of add_entry / remove_entry / remove_matching_entries / remove_expired_entries and for every sequence of lookups the answer is the best matching "
+                  "flow currently installed, a miss iff none matches (history_lookup_wire_repaired, history_lookup_sequence_wire, lookup_spec_wire_repaired, miss_iff_wire_repaired), "
+                  "exact entries stand before wildcarded ones and the code's exactness test is the standard's (exact_outranks_repaired, exact_iff_repaired). "
+                  "READING CLAIMED for 'exact match (has no wildcards)': the prerequisite rule — wildcard bits on fields that are ignored for lack of prerequisites do not count "
+                  "(Spec.exactSig / IsBestSig; what the reference switch does and the code implements since D26); lookup_spec_wire_literal_repaired is the literal reading "
+                  "(all 22 bits zero), proved for flows that wildcard no ignored field, on which the two readings coincide. "
+                  "Also: the table is sorted after every history, insertion goes in front of equal priorities (table_sorted_repaired, add_position), non-strict selection is subsumption "
+                  "over all header tuples (subsumes_iff_repaired), a flow built by from_packet/pack matches its packet and is exact (flow_from_packet_*_repaired). "
+                  "Remaining hypotheses: ToS without ECN bits (open D36, matches_tos_defect), complete frames (irregular_l4/l3_witness), 16-bit priorities. "
+                  "The `_v` theorems state all of this for every combination of the repairs; the un-suffixed ones concern the tree before D37/D38/D26 and serve as regression witnesses.")
     level_note = ("Trusted: Lean kernel, axioms propext/Classical.choice/Quot.sound, the hand-written models and the Spec transcription, this harness. "
                   "The theorems are about the model; the per-run correspondence (all 2^10 wildcard combinations, prefix counters 0..63, structured frames, tables to 40 entries, "
                   "operation histories to 90 calls, packet->flow round trips) is what ties it to the code.")
@@ -217,6 +230,12 @@ class C03(Check):
         nwp = (m.wildcards >> BIT[PROTO]) & 1
         ex = [0, 1, 1, 2, 0xffff, 0, 0x0806, 0, 1, 0x0a000001, 0x0a000002, 0, 0]
         m2 = of.ofp_match(); m2.unpack(pack_rec(ex), 0, flow_mod=True)
+        # strict test of TableEntry.is_matched_by: identical up to address bits below the prefix (both-ways encompassing), or `==`
+        a = [mkwild([f for f in FLAG_FIELDS if f != DL_TYPE], 24, 32)] + [0] * 12; a[DL_TYPE] = 0x0800; a[NW_SRC] = 0x0a090909
+        b = list(a); b[NW_SRC] = 0x0a010101
+        ma, mb = of.ofp_match(), of.ofp_match(); ma.unpack(pack_rec(a), 0, flow_mod=True); mb.unpack(pack_rec(b), 0, flow_mod=True)
+        te = self.TableEntry(priority=5, match=ma, actions=[], now=0)
+        self.strict_both_ways = bool(te.is_matched_by(mb, priority=5, strict=True)) and bool(te.is_matched_by(ma, priority=5, strict=True))
         return {"arpLow8": arp, "prereqExact": bool(nwp), "exactSig": bool(m2.is_exact)}
 
     def shape_variant(self):
@@ -252,7 +271,8 @@ class C03(Check):
         return [probe["arpLow8"], probe["prereqExact"], probe["exactSig"]]
 
     def extra_evidence(self):
-        return {"code_variant": dict(zip(["arpLow8", "prereqExact", "exactSig"], self.variant)), "code_variant_decided_by": self.variant_source}
+        return {"code_variant": dict(zip(["arpLow8", "prereqExact", "exactSig"], self.variant)), "code_variant_decided_by": self.variant_source,
+                "strict_test_both_ways": self.strict_both_ways}
 
     def compute_anchors(self):
         import ast, os
@@ -511,7 +531,7 @@ class C03(Check):
                 elif op[0] == "rm_match": ops.append(["rm_match", unpack_rec(bytes.fromhex(op[1])), op[2], bool(op[3])])
                 elif op[0] == "lookup": ops.append(["lookup", self.phdr_of(self.parse(op[1]))[0], op[2]])
                 else: ops.append(list(op))
-            return {"op": "tableops", "ops": ops}
+            return {"op": "tableops", "ops": ops, "sm": self.strict_both_ways}
 
     def impl_view(self, case, obs):
         k = case["kind"]
@@ -1164,7 +1184,11 @@ class C03(Check):
             elif x < 0.66:
                 if rng.random() < 0.5:
                     p, r = installed[rng.choice(sorted(installed))]
-                    ops.append(["rm_match", pack_rec(r).hex(), p if rng.random() < 0.6 else (p + 1) & 0xffff, True])
+                    r = list(r)
+                    k = min(32, (r[W] >> 8) & 63)
+                    if 0 < k and rng.random() < 0.5: r[NW_SRC] ^= 1 << rng.randrange(k)     # identical flow, other bits below the prefix
+                    elif rng.random() < 0.15: f = rng.choice([DL_SRC, IN_PORT, TP_DST]); r[f] = (r[f] + 1) & FIELD_MAX[f]   # or a different one
+                    ops.append(["rm_match", pack_rec(r).hex(), p if rng.random() < 0.7 else (p + 1) & 0xffff, True])
                 else:
                     fr, port, ph, h = rng.choice(frames)
                     r = self.near_rec(rng, h, ph, [f for f in FLAG_FIELDS if rng.random() < 0.8], rng.choice([32, 32, 24, 8]), rng.choice([32, 32, 24]))
